@@ -229,6 +229,8 @@ def run(chk):
         ("Equal", lambda: k_equal(base, chk)),
     ]
     run_kernels(chk, items)
+    from sym import validate
+    validate.scalar_kernels(base, chk, 150 if chk.tier == "thorough" else 10)
     import math
     chk.fact("gcd(2^256, l) = 1 (Montgomery map is a bijection); zero value = limbs 0 = value 0", math.gcd(2**256, L) == 1, [], "arithmetic")
     t0 = time.time()
